@@ -69,6 +69,16 @@ def plan(tier, seed):
         P.add("esp", shape=shape, nc=nc, cw=cw, kw=kw, thresh=pick(rng, [1e-3, 0.02]),
               crop=pick(rng, [0.5, 0.8, 0.95]), kind="bandlimited", dt="complex128",
               eseed=int(rng.integers(1 << 30)))
+    # large calibration regions with a small kernel and few coils (very tall calibration
+    # matrix), odd and even matrix sizes past 32
+    for i in range(6 if quick else 80):
+        kw = int(pick(rng, [3, 4, 5]))
+        nc = int(rng.integers({3: 4, 4: 4, 5: 3}[kw], 7))
+        cw = int(rng.integers(30, 41))
+        shape = [int(rng.integers(cw, 50)) for _ in range(2)]
+        P.add("esp", shape=shape, nc=nc, cw=cw, kw=kw, thresh=pick(rng, [1e-3, 0.02]),
+              crop=pick(rng, [0.5, 0.8, 0.95]), kind="bandlimited", dt="complex128",
+              eseed=int(rng.integers(1 << 30)))
     return P.cases
 
 
